@@ -301,6 +301,90 @@ fn run_packet(shape: usize, pos: u64, trace: bool) -> CaseResult {
     res
 }
 
+/// Extreme numbers in packets: TTLs of known answers and of received records, SRV numbers.
+fn run_packet_numbers(kind: u64, ttl_ix: u64, trace: bool) -> CaseResult {
+    const EXT: [u32; 7] = [0, 1, 2, 0x7FFF_FFFF, 0x8000_0000, 0xFFFF_FFFE, 0xFFFF_FFFF];
+    let ttl = EXT[ttl_ix as usize];
+    let mut res = CaseResult { nontrivial: true, transitions: 1, ..Default::default() };
+    let mut w = World::one(lay_v4());
+    w.trace = trace;
+    w.ds[0].h.set_ip_check_interval(0).unwrap();
+    w.ds[0].ctl.set_rng_default(0);
+    w.poke(0);
+    let rx = w.ds[0].h.browse("_t._tcp.local.").unwrap();
+    w.add_browse(0, rx);
+    w.poke(0);
+    let rx = w.ds[0].h.resolve_hostname("h.local.", None).unwrap();
+    w.add_host(0, rx);
+    w.poke(0);
+    w.ds[0].h.register(svc("_t._tcp.local.", "mine", "myhost.local.", "10.0.0.5", 80, &[("k", "v")])).unwrap();
+    w.poke(0);
+    w.advance(3000); // announced
+    let ty = n("_t._tcp.local");
+    let mine = n("mine._t._tcp.local");
+    let good = Inst::simple("good", "h", [10, 0, 0, 9]);
+    let what;
+    match kind {
+        0 => {
+            // a query whose known answers are exactly the records we would answer with, TTL extreme
+            what = "known-answers-with-extreme-ttl";
+            for (qn, qt) in [(ty.clone(), T_PTR), (mine.clone(), T_ANY), (n("myhost.local"), T_A)] {
+                let mut q = query(vec![(qn, qt)]);
+                let mut kas = vec![ptr(&ty, &mine, ttl), srv(&mine, &n("myhost.local"), 80, ttl), txt(&mine, &txt_rdata(&[(b"k", Some(b"v"))]), ttl), a(&n("myhost.local"), [10, 0, 0, 5], ttl)];
+                for flush in [false, true] {
+                    for k in kas.iter_mut() {
+                        k.flush = flush && k.rtype != T_PTR;
+                    }
+                    q.answers = kas.clone();
+                    w.deliver(0, IF0, PEER0, build(&q));
+                    let mut legacy = q.clone();
+                    legacy.id = 7;
+                    w.deliver(0, IF0, "10.0.0.9:40000", build(&legacy));
+                }
+            }
+        }
+        1 => {
+            what = "received-records-with-extreme-ttl";
+            let mut recs = good.all(ttl);
+            recs.push(aaaa(&n("h.local"), "fd00::9".parse().unwrap(), ttl));
+            recs.push(Record { name: good.inst.clone(), rtype: T_NSEC, class: C_IN, flush: true, ttl, rd: RD::Nsec { next: good.inst.clone(), rest: vec![0, 1, 0x40] } });
+            w.deliver(0, IF0, PEER0, build(&response(recs.clone())));
+            w.advance(1500);
+            w.deliver(0, IF0, PEER0, build(&response(recs)));
+            let _ = w.ds[0].h.verify(good.fullname(), Duration::from_millis(500));
+            w.poke(0);
+        }
+        2 => {
+            what = "probe-authorities-and-conflicts-with-extreme-ttl";
+            // a second registration is probing while these arrive
+            w.ds[0].h.register(svc("_t._tcp.local.", "second", "otherhost.local.", "10.0.0.6", 81, &[])).unwrap();
+            w.poke(0);
+            w.advance(100);
+            let sec = n("second._t._tcp.local");
+            let mut q = query(vec![(sec.clone(), T_ANY), (n("otherhost.local"), T_ANY)]);
+            q.authorities = vec![srv(&sec, &n("zzz.local"), 9, ttl), a(&n("otherhost.local"), [10, 0, 0, 200], ttl)];
+            w.deliver(0, IF0, PEER0, build(&q));
+            w.deliver(0, IF0, PEER0, build(&response(vec![srv(&sec, &n("zzz.local"), 9, ttl), a(&n("otherhost.local"), [10, 0, 0, 201], ttl)])));
+        }
+        _ => {
+            what = "srv-numbers-and-goodbyes";
+            let mut s1 = good.srv(ttl);
+            if let RD::Srv { priority, weight, port, .. } = &mut s1.rd {
+                *priority = 0xFFFF;
+                *weight = 0xFFFF;
+                *port = if ttl_ix % 2 == 0 { 0 } else { 0xFFFF };
+            }
+            w.deliver(0, IF0, PEER0, build(&response(vec![good.ptr(120), s1, good.txt(120), a(&n("h.local"), [10, 0, 0, 9], ttl)])));
+            w.deliver(0, IF0, PEER0, build(&response(good.all(0))));
+        }
+    }
+    w.advance(4000);
+    still_serving(&mut w, &mut res, &format!("packet-numbers|{what}"), &format!("{what}, ttl {ttl:#x}"));
+    res.outcome = outcome_hash(&w.log);
+    res.states = final_states(&w);
+    res
+}
+
 pub fn check(tier: &str) -> i32 {
     let mut rep = Report::new("C15", tier, "exploration");
     let thorough = rep.thorough();
@@ -368,6 +452,15 @@ pub fn check(tier: &str) -> i32 {
     rep.require("api-strings", "refused");
     rep.require("api-strings", "still_serving");
     rep.require("hostile-names-in-packets", "still_serving");
+    let ndims = [4u64, 7];
+    let nums = FnPart {
+        name: "hostile-numbers-in-packets".into(),
+        rule: "TTL in {0, 1, 2, 2^31-1, 2^31, 2^32-2, 2^32-1} on: known answers equal to the records the daemon would answer with (multicast and legacy queries, with and without cache-flush bit), the records of a browsed instance and of a searched host (received twice, then verify), probe authorities and conflicting responses while a registration is probing, SRV priority/weight/port extremes followed by a goodbye; then 4 s and the still-serving test".into(),
+        n: product(&ndims),
+        describe: Box::new(move |i| { let x = unrank(i, &ndims); format!("kind {} ttl index {}", x[0], x[1]) }),
+        run: Box::new(move |i, tr| { let x = unrank(i, &ndims); run_packet_numbers(x[0], x[1], tr) }),
+    };
+    rep.run_part(&nums, Duration::from_secs(120));
     // conflict renames that have to shorten a label holding a multi-byte character
     let cut_labels: Vec<String> = crate::c08::multibyte_labels("", "").into_iter().collect::<std::collections::BTreeSet<_>>().into_iter().collect();
     let ncut = cut_labels.len() as u64;
